@@ -296,11 +296,11 @@ def trace_corr(mode, module, ntraces, relevant, rule, nontrivial, corpus_dir=Non
                             monitor_failures.append(item)
                         else:
                             warnings.append({'trace': tr.get('trace'), 'step': k, 'code': code, 'op': st['op']['op']})
-                            # a deviation outside this property's projection that is confined to storage (no status, return data,
-                            # event or balance difference) does not end the comparison: a later step of a relevant operation that
+                            # a deviation outside this property's projection that is confined to storage and events (no status, return data
+                            # or balance difference) does not end the comparison: a later step of a relevant operation that
                             # behaves differently is still reported.  Any other deviation does end it (states may have parted for
                             # reasons that are not this property's concern; the property whose projection covers it reports it).
-                            if code != 8:
+                            if code & ~12:      # anything beyond events (4) and storage (8): status, return data, balances, monitor
                                 first = False
         # property monitors on the implementation's own observations (independent of the model's step function)
         if monitor:
@@ -340,7 +340,7 @@ def gw_nontrivial(tr):
     return any(oks) and not all(oks)
 
 
-register('C01', corr=trace_corr('gateway', 'gwcases', (48, 1600), lambda op, code: op['op'] in ('approve', 'rotate') and code & 9, GW_RULE, gw_nontrivial),
+register('C01', corr=trace_corr('gateway', 'gwcases', (48, 1600), lambda op, code: op['op'] in ('approve', 'rotate', 'init') and code & 9, GW_RULE, gw_nontrivial),
          assumptions=['keccak-256 and ed25519 are outside the proofs: theorems hold for every hash and verifier function; collision-freedom appears only as explicit hypotheses of c01_digest_binding',
                       'u64 timestamps: block time monotone and below 2^64'])
 register('C02', corr=trace_corr('gateway', 'gwcases', (48, 1600), lambda op, code: op['op'] in ('approve', 'validate', 'isApproved', 'isExecuted') and code & 15, GW_RULE, gw_nontrivial),
